@@ -404,6 +404,8 @@ def _leaf_value_norm(leaf, v):
         return int(v)
     if d == "normalv":
         return np.asarray(v, dtype=np.float64)
+    if d == "flipv":
+        return np.asarray(v, dtype=bool)
     return float(v)
 
 
